@@ -576,7 +576,7 @@ package raft
 // Client API: submissions and membership changes (C03, C09, C18)
 // ===========================================================================================
 
-//@ spec pendingSpec(r) = r.committedConfiguration == nil || r.committedConfiguration.Index != r.configuration.Index
+//@ spec pendingSpec(r) = r.committedConfiguration == nil || r.committedConfiguration.Index != r.configuration.Index || r.configurationResponseCh != nil
 //@ spec sameMaps(a, b) = (forall k string :: (k in a.Members) == (k in b.Members)) && (forall k string :: a.Members[k] == b.Members[k]) && (forall k string :: (k in a.IsVoter) == (k in b.IsVoter)) && (forall k string :: a.IsVoter[k] == b.IsVoter[k])
 
 //@ func newFuture
